@@ -48,6 +48,14 @@ def _exc(cmd_results):
     return None
 
 
+def _findexc(cmd_results):
+    for res in cmd_results:
+        for ln in res:
+            if ln.startswith("findexc"):
+                return " [findHoppingDestination threw: %s]" % ln[8:]
+    return ""
+
+
 def _limbs(x):
     return [x // 10 ** 9, x % 10 ** 9]
 
@@ -148,8 +156,8 @@ def _replay_lattice(ctx, exe, recs, K, count_key):
         sel = [int(t) for t in _line(out[1], "sel")]
         rep["real_thresholds"] = thr
         if any(not (0 <= s < n) for s in sel):
-            ctx.violation(K + ":total:" + shape, "a probe in [0,1] selected no event of the list: %s, rates %s"
-                          % (sel, list(rates)), rep)
+            ctx.violation(K + ":total:" + shape, "a probe in [0,1] selected no event of the list: %s, rates %s%s"
+                          % (sel, list(rates), _findexc(out)), rep)
             continue
         # the real thresholds must be model thresholds (then probing at +-eps/midpoints is exact)
         off = [t for t in thr if min(abs(t - a / S) for a in pts) > eps]
@@ -184,7 +192,7 @@ def _replay_lattice(ctx, exe, recs, K, count_key):
             else:
                 own[ev] += b - a
         if not ok:
-            ctx.violation(K + ":total:" + shape, "partition by the tree's thresholds has a cell without event: %s" % cl, rep)
+            ctx.violation(K + ":total:" + shape, "partition by the tree's thresholds has a cell without event: %s%s" % (cl, _findexc(out)), rep)
         elif own != g["exp"]:
             ctx.violation(K + ":measure:" + shape,
                           "measure by the tree's own thresholds %s over %d, expected %s (rates %s)" % (own, S, g["exp"], list(rates)), rep)
@@ -285,7 +293,7 @@ def _huffman_history(ctx, exe):
             sel = [int(t) for t in _line(out[ci + 1], "sel")]
             what = "build %d of rates %s kinds %s" % (st["nb"], st["rates"], st["kinds"])
             if any(not (0 <= x < n) for x in sel):
-                ctx.violation("Huffman:history:total:" + tag, "a probe in [0,1] selected no current event (%s)" % what, rep)
+                ctx.violation("Huffman:history:total:" + tag, "a probe in [0,1] selected no current event (%s)%s" % (what, _findexc(out)), rep)
                 continue
             off = [t for t in thr if abs(t * S - round(t * S)) > eps * S or not (-eps <= t <= 1 + eps)]
             if off:
@@ -396,7 +404,7 @@ def _huffman_wide(ctx, exe):
         if not v["esc"]:
             ctx.violation("Huffman:wide:escape-rate", "escape rate differs from the sum of the rates (n=%d)" % len(rates), rep)
         if not v["total"]:
-            ctx.violation("Huffman:wide:total:" + shape, "some p in [0,1] selects no event (n=%d)" % len(rates), rep)
+            ctx.violation("Huffman:wide:total:" + shape, "some p in [0,1] selects no event (n=%d)%s" % (len(rates), _findexc(results[i])), rep)
         if not v["tile"]:
             ctx.violation("Huffman:wide:tiling:" + shape, "cells do not tile [0,1] (n=%d)" % len(rates), rep)
         if not v["inrange"]:
@@ -913,14 +921,15 @@ def run(ctx):
         "total forward and backward reorganisation energies are equal",
         "Promotetime's uniform variate is scripted by replacing the distribution of KMCCalculator::RandomVariable_ "
         "with the degenerate uniform_real_distribution(r,r)"]
-    _huffman_lattice(ctx, exe)
-    _huffman_history(ctx, exe)
-    _huffman_wide(ctx, exe)
-    _graph(ctx, exe)
-    _walk(ctx, exe)
-    _lifetime(ctx, exe)
-    _marcus(ctx, exe)
-    _marcus_field(ctx, exe)
-    _wait(ctx, exe)
-    _observations(ctx, exe)
+    for name, layer in (("Huffman", _huffman_lattice), ("Huffman:history", _huffman_history), ("Huffman:wide", _huffman_wide),
+                        ("Graph", _graph), ("Walk", _walk), ("KMCLifetime", _lifetime), ("Marcus", _marcus),
+                        ("Marcus:field", _marcus_field), ("KMC", _wait), ("Observations", _observations)):
+        try:
+            layer(ctx, exe)
+        except (ValueError, IndexError, TypeError, KeyError, AttributeError) as e:
+            # the driver ran the real code to the end but its answer does not have the agreed form: the code did
+            # something the protocol has no word for -> a verdict about the code (the unchanged tree parses)
+            import traceback
+            ctx.violation(name + ":unparsable-result", "result of the real code could not be interpreted (%s: %s) at %s"
+                          % (type(e).__name__, e, traceback.format_exc().strip().splitlines()[-3].strip()), {"layer": name})
     ctx.exhaustive = False
